@@ -685,3 +685,47 @@ def K3_code_fill(ctx):
             bad.append(p)
     ctx.ob('K3', g, 'mv-code-before-backing-store', not bad, f'{len(bad)} deviating path(s)', site=g.loc(g.b['lo']),
            what='code is looked up under Code(address) in MV memory first; the backing store (by hash) is used only when no preceding writer published code')
+
+
+def R5_returned_value(ctx):
+    """what a read RETURNS is the value of the very source it recorded: the MV entry whose version went into the read set, the
+    beneficiary history resolution, or the backing database — a reader that records the right version but hands back something
+    else passes validation with a wrong value"""
+    for name, var, dbcall in (('code_by_address', 'Code', '::code_by_hash_ref'), ('basic', 'Basic', '::basic_ref')):
+        f = idb_fn(ctx, name)
+        bad = []
+        n_mv = n_db = n_ben = 0
+        for p in feasible(f.paths()):
+            ret = [e for e in p.events if e.kind == 'ret'][0].d['value']
+            if not (ret[0] == 'agg' and ret[2] == 'Ok'):
+                continue
+            val = ret[3][0]
+            ins = [e for e in p.events if e.kind == 'call' and norm_callee(e.d['callee']).endswith('::insert') and mentions_field(e.d['args'][0], 'IncarnationDb.read_set')
+                   and variant_of(e.d['args'][1]) == var]
+            if not ins:
+                continue     # (a blocked beneficiary read records nothing and returns None: B6)
+            ver = ins[-1].d['args'][2]
+            kind = variant_of(ver)
+            if kind == 'MvMemory':
+                n_mv += 1
+                ents = [s[1] for s in subterms(ver) if s[0] == 'field' and s[2].endswith('MemoryEntry.incarnation')]
+                if not ents:
+                    bad.append((p, 'recorded MV version does not name an entry'))
+                    continue
+                ent = strip(ents[0])
+                src = [s for s in subterms(strip(val)) if s[0] == 'field' and s[2].endswith('MemoryEntry.data') and strip(s[1]) == ent]
+                if not src:
+                    bad.append((p, f'{name}: an MV entry was recorded in the read set but the returned value is not that entry\'s data ({show(val)[:70]})'))
+            elif kind == 'Storage':
+                n_db += 1
+                db = [e for e in p.events if e.kind == 'call' and e.d['callee'].endswith(dbcall) and mentions_field(e.d['args'][0], 'IncarnationDb.backing_db')]
+                if not db or not mentions(strip(val), strip(db[-1].d['result'])):
+                    bad.append((p, f'{name}: the backing store was recorded as the source but the returned value is not what it answered ({show(val)[:70]})'))
+            elif kind == 'Beneficiary':
+                n_ben += 1
+                rb = calls(p, 'Beneficiary::resolve_before')
+                if not rb or not mentions(strip(val), strip(rb[-1].d['result'])):
+                    bad.append((p, f'{name}: the beneficiary history was recorded as the source but the returned value does not come from it'))
+        ctx.ob('R5', f, 'returned-value-is-the-recorded-source', n_mv >= 1 and n_db >= 1 and not bad,
+               f'mv={n_mv} db={n_db} beneficiary={n_ben}; ' + '; '.join(sorted({w for _, w in bad})[:2]), site=f.loc(f.b['lo']),
+               what='validation only compares versions; a read that records the resolved version but returns another value (the backing store\'s, nothing) is validated as consistent and commits a result in-order execution never produces')
